@@ -21,7 +21,7 @@ structure ViewSame (w w' : World) : Prop where
 
 theorem ViewSame.of_fp {m : Mask} {w w' : World} (h : Fp m w w') (hp : m.pools = false) (hh : m.held = false) :
     ViewSame w w' :=
-  ⟨h.2.2.2.2.2.2.2.1, poolView_of_fp h hp, fun q pl => by rw [h.2.2.2.2.2.2.2.2 hh q]⟩
+  ⟨h.2.2.2.2.2.2.2.1, poolView_of_fp h hp, fun q pl => by rw [h.2.2.2.2.2.2.2.2.1 hh q]⟩
 
 theorem ViewSame.of_same {w w' : World} (h : Same w w') : ViewSame w w' :=
   ViewSame.of_fp (Same.fp {} h) rfl rfl
@@ -46,7 +46,7 @@ theorem PoolInv.of_viewSame {w w' : World} (h : ViewSame w w') (hi : PoolInv w) 
 
 theorem recordPool_viewSame (w : World) (a : Nat) : ViewSame w (recordPool w a) := by
   have hf := recordPool_fp w a
-  refine ⟨hf.2.2.2.2.2.2.2.1, ?_, fun q pl => by rw [hf.2.2.2.2.2.2.2.2 rfl q]⟩
+  refine ⟨hf.2.2.2.2.2.2.2.1, ?_, fun q pl => by rw [hf.2.2.2.2.2.2.2.2.1 rfl q]⟩
   intro pl
   unfold recordPool
   split
@@ -67,7 +67,7 @@ theorem setPoolInUse_upd {w : World} {pl : Nat} {v : PView} (hv : poolView w pl 
     ∀ q, ((setPoolInUse w pl u).proc q).held = (w.proc q).held := by
   obtain ⟨x, hx, rfl⟩ := poolView_some.1 hv
   have hf := setPoolInUse_fp w pl u
-  refine ⟨⟨hf.2.2.2.2.2.2.2.1, ?_, ?_, ?_⟩, hf.2.2.2.2.2.2.2.2 rfl⟩
+  refine ⟨⟨hf.2.2.2.2.2.2.2.1, ?_, ?_, ?_⟩, hf.2.2.2.2.2.2.2.2.1 rfl⟩
   · unfold setPoolInUse poolView
     show ((w.pools.modify pl _)[pl]?).map Pool.view = _
     rw [poolView_modify, if_pos rfl, hx]; rfl
@@ -75,7 +75,7 @@ theorem setPoolInUse_upd {w : World} {pl : Nat} {v : PView} (hv : poolView w pl 
     unfold setPoolInUse poolView
     show ((w.pools.modify pl _)[pl']?).map Pool.view = _
     rw [poolView_modify, if_neg hne]; rfl
-  · intro q pl' _; rw [hf.2.2.2.2.2.2.2.2 rfl q]
+  · intro q pl' _; rw [hf.2.2.2.2.2.2.2.2.1 rfl q]
 
 /-- the holder list of pool `pl` is replaced (raw record update as written in the model) -/
 theorem setHolders_upd {w : World} {pl : Nat} {x : Pool} (hx : w.pools[pl]? = some x) (h' : HH) :
